@@ -7,6 +7,7 @@ import (
 	"sort"
 	"strconv"
 
+	sdkmath "cosmossdk.io/math"
 	storetypes "cosmossdk.io/store/types"
 
 	sdk "github.com/cosmos/cosmos-sdk/types"
@@ -14,6 +15,7 @@ import (
 	distrtypes "github.com/cosmos/cosmos-sdk/x/distribution/types"
 	stakingtypes "github.com/cosmos/cosmos-sdk/x/staking/types"
 
+	transfertypes "github.com/cosmos/ibc-go/v10/modules/apps/transfer/types"
 	channeltypes "github.com/cosmos/ibc-go/v10/modules/core/04-channel/types"
 	ibcexported "github.com/cosmos/ibc-go/v10/modules/core/exported"
 
@@ -154,6 +156,68 @@ func (w *World) projectProvider(c *Chain, ctx sdk.Context) map[string]any {
 	}
 	s["pool"] = pool
 	s["epochsToReward"] = pk.GetNumberOfEpochsToStartReceivingRewards(ctx)
+	// distribution view for reward denoms (everything but the bond denom): outstanding rewards per validator,
+	// community pool, total supply -- integer parts
+	outst := map[string]any{}
+	for _, v := range allVals {
+		name, ok := n.ValByOp[v.OperatorAddress]
+		if !ok {
+			continue
+		}
+		valAddr, _ := sdk.ValAddressFromBech32(v.OperatorAddress)
+		m := map[string]any{}
+		if or, err := app.DistrKeeper.GetValidatorOutstandingRewards(ctx, valAddr); err == nil {
+			for _, dc := range or.Rewards {
+				if dc.Denom != BondDenom {
+					m[dc.Denom] = dc.Amount.TruncateInt().Int64()
+				}
+			}
+		}
+		outst[name] = m
+	}
+	s["outst"] = outst
+	cacc := map[string]any{}
+	for _, v := range allVals {
+		name, ok := n.ValByOp[v.OperatorAddress]
+		if !ok {
+			continue
+		}
+		valAddr, _ := sdk.ValAddressFromBech32(v.OperatorAddress)
+		m := map[string]any{}
+		if ac, err := app.DistrKeeper.GetValidatorAccumulatedCommission(ctx, valAddr); err == nil {
+			for _, dc := range ac.Commission {
+				if dc.Denom != BondDenom {
+					m[dc.Denom] = dc.Amount.TruncateInt().Int64()
+				}
+			}
+		}
+		cacc[name] = m
+	}
+	s["commAcc"] = cacc
+	comm := map[string]any{}
+	if fp, err := app.DistrKeeper.FeePool.Get(ctx); err == nil {
+		for _, dc := range fp.CommunityPool {
+			if dc.Denom != BondDenom {
+				comm[dc.Denom] = dc.Amount.TruncateInt().Int64()
+			}
+		}
+	}
+	s["community"] = comm
+	supply := map[string]any{}
+	app.BankKeeper.IterateTotalSupply(ctx, func(c sdk.Coin) bool {
+		if c.Denom != BondDenom {
+			supply[c.Denom] = c.Amount.Int64()
+		}
+		return false
+	})
+	s["supply"] = supply
+	dm := map[string]any{}
+	for _, coin := range app.BankKeeper.GetAllBalances(ctx, app.AccountKeeper.GetModuleAddress(distrtypes.ModuleName)) {
+		if coin.Denom != BondDenom {
+			dm[coin.Denom] = coin.Amount.Int64()
+		}
+	}
+	s["distrBal"] = dm
 
 	// ---- per consumer ----
 	cons := map[string]any{}
@@ -394,12 +458,15 @@ func (w *World) projectConsumerRecord(c *Chain, ctx sdk.Context, cid string) map
 	denoms, _ := pk.GetAllowlistedRewardDenoms(ctx, cid)
 	r["allowDenoms"] = sortedStrs(append([]string{}, denoms...))
 	comm := map[string]any{}
+	commBp := map[string]any{}
 	for _, a := range pk.GetAllCommissionRateValidators(ctx, cid) {
 		if rate, ok := pk.GetConsumerCommissionRate(ctx, cid, a); ok {
 			comm[n.valNameByCons(a.ToSdkConsAddr())] = rate.String()
+			commBp[n.valNameByCons(a.ToSdkConsAddr())] = rate.MulInt64(10000).TruncateInt64()
 		}
 	}
 	r["commission"] = comm
+	r["commissionBp"] = commBp
 	// reward credits per denom: [integer part, hasFraction]
 	credit := map[string]any{}
 	store := ctx.KVStore(c.PApp.GetKey(providertypes.StoreKey))
@@ -541,6 +608,19 @@ func (w *World) projectConsumer(c *Chain, ctx sdk.Context) map[string]any {
 	s["lastTx"] = ck.GetLastTransmissionBlockHeight(ctx).Height
 	s["bpdt"] = ck.GetBlocksPerDistributionTransmission(ctx)
 	s["frac"] = ck.GetConsumerRedistributionFrac(ctx)
+	if fd, err := sdkmath.LegacyNewDecFromStr(ck.GetConsumerRedistributionFrac(ctx)); err == nil {
+		s["fracBp"] = fd.MulInt64(10000).TruncateInt64()
+	} else {
+		s["fracBp"] = 0
+	}
+	xs := "none"
+	if xc := ck.GetDistributionTransmissionChannel(ctx); xc != "" {
+		if ch, ok := c.CApp.GetIBCKeeper().ChannelKeeper.GetChannel(ctx, "transfer", xc); ok {
+			xs = ch.State.String()
+		}
+	}
+	s["xferState"] = xs
+	s["allowedDenoms"] = sortedStrs(append([]string{}, ck.AllowedRewardDenoms(ctx)...))
 	s["rewardDenoms"] = sortedStrs(append([]string{}, ck.GetRewardDenoms(ctx)...))
 	// sent CCV packets are observed via the relayer network (see blockObservations)
 	return s
@@ -772,6 +852,21 @@ func (w *World) describePacket(dstPort string, data []byte) map[string]any {
 			case ccvtypes.VscMaturedPacket:
 				return map[string]any{"type": "matured", "key": "", "id": int64(cp.GetVscMaturedPacketData().ValsetUpdateId), "inf": "", "pow": 0}
 			}
+		}
+	}
+	if dstPort == "transfer" {
+		var ft transfertypes.FungibleTokenPacketData
+		if err := transfertypes.ModuleCdc.UnmarshalJSON(data, &ft); err == nil {
+			amt, _ := strconv.ParseInt(ft.Amount, 10, 64)
+			memoC := ""
+			if m, err := ccvtypes.GetRewardMemoFromTransferMemo(ft.Memo); err == nil {
+				memoC = consIDName(m.ConsumerId)
+			}
+			toPool := false
+			if w.P != nil {
+				toPool = ft.Receiver == w.poolAddr
+			}
+			return map[string]any{"type": "transfer", "denom": ft.Denom, "amt": amt, "memoC": memoC, "toPool": toPool}
 		}
 	}
 	return map[string]any{"type": "other", "port": dstPort}
